@@ -18,6 +18,7 @@ func (t *Timer) Refresh() *Timer {
 	if !t.timer.Stop() {
 		go t.fn()
 	}
+	verifYield("refresh:before-rearm")
 
 	return t
 }
@@ -44,6 +45,7 @@ func SetTimeout(fn func(), sleep time.Duration) *Timer {
 	timer.fn = func() {
 		select {
 		case <-timer.timer.C:
+			verifYield("timeout:tick")
 			fn()
 		case <-timer.stopCh:
 			return
@@ -61,6 +63,7 @@ func ClearTimeout(timer *Timer) {
 
 func (t *Timer) Stop() {
 	if t.timer.Stop() {
+		verifYield("stop:before-signal")
 		t.stopCh <- struct{}{}
 	}
 }
@@ -75,6 +78,7 @@ func SetInterval(fn func(), sleep time.Duration) *Timer {
 		for {
 			select {
 			case <-timer.timer.C:
+				verifYield("interval:tick")
 				timer.timer.Reset(timer.sleep)
 				go fn()
 			case <-timer.stopCh:
